@@ -167,6 +167,7 @@ func (a *Allocator) Allocated() uint64 {
 
 func (a *Allocator) TrimTo(max int) {
 	var alloc int
+	kept := 0 // index of the last buffer that stays
 	for i, b := range a.buffers {
 		if len(b) == 0 {
 			break
@@ -175,10 +176,17 @@ func (a *Allocator) TrimTo(max int) {
 		// Always keep the first buffer: addBufferAt sizes a new buffer from its
 		// predecessor, so an allocator without it could never grow again.
 		if alloc < max || i == 0 {
+			kept = i
 			continue
 		}
 		Free(b)
 		a.buffers[i] = nil
+	}
+	// If the allocation position is inside a buffer that was just freed, move it to
+	// the end of the last buffer that stays, so that the next allocation continues in
+	// a fresh buffer instead of looking for room in a freed one.
+	if bufIdx, _ := parse(atomic.LoadUint64(&a.compIdx)); bufIdx > kept {
+		atomic.StoreUint64(&a.compIdx, uint64(kept)<<32|uint64(len(a.buffers[kept])))
 	}
 }
 
